@@ -1,14 +1,17 @@
 #!/bin/bash
 # Build the harness binary (repo + overlay harness, tag verif) and the unmodified CLI
-# from /repo's current working tree into /verif/build. /repo is not touched.
+# from the repository's current working tree (default /repo; VERIF_REPO overrides for scratch
+# copies) into the build directory (default /verif/build; VERIF_BUILD overrides). The repository is not touched.
 set -e
 export GOFLAGS=-mod=mod GOPROXY=off
-B=/verif/build
+V=$(cd "$(dirname "$0")/.." && pwd)
+R=${VERIF_REPO:-/repo}
+B=${VERIF_BUILD:-$V/build}
 mkdir -p $B
-cp /repo/go.mod $B/go.mod; cp /repo/go.sum $B/go.sum
+cp $R/go.mod $B/go.mod; cp $R/go.sum $B/go.sum
 cat > $B/overlay.json <<J
-{"Replace":{"/repo/src/zz_verif_harness.go":"/verif/harness/zz_verif_harness.go","/repo/src/zz_verif_proxy.go":"/verif/harness/zz_verif_proxy.go"}}
+{"Replace":{"$R/src/zz_verif_harness.go":"$V/harness/zz_verif_harness.go","$R/src/zz_verif_proxy.go":"$V/harness/zz_verif_proxy.go"}}
 J
-cd /repo
+cd $R
 go build -tags verif -overlay $B/overlay.json -modfile $B/go.mod -o $B/harness ./src
 go build -modfile $B/go.mod -o $B/anonymongo ./src
